@@ -33,7 +33,7 @@ func NewStats() *Stats {
 }
 
 func (s *Stats) Count(k string, n int) { s.mu.Lock(); s.counters[k] += n; s.mu.Unlock() }
-func (s *Stats) Get(k string) int     { s.mu.Lock(); defer s.mu.Unlock(); return s.counters[k] }
+func (s *Stats) Get(k string) int      { s.mu.Lock(); defer s.mu.Unlock(); return s.counters[k] }
 
 // Distinct records one non-trivial case by its canonical key.
 func (s *Stats) Distinct(key string) { s.mu.Lock(); s.distinct[key] = struct{}{}; s.mu.Unlock() }
